@@ -273,8 +273,10 @@ pub enum SliceOp {
     Write,
     AddInPlace,
     AddInPlaceWithAmp,
+    /// zip_map_in_place with a second slice of a different frame type (mono f32, e.g. an envelope): lengths are compared in frames
+    ZipMapMixed,
 }
-pub const SLICE_OPS: [SliceOp; 6] = [SliceOp::Equilibrium, SliceOp::MapInPlace, SliceOp::ZipMapInPlace, SliceOp::Write, SliceOp::AddInPlace, SliceOp::AddInPlaceWithAmp];
+pub const SLICE_OPS: [SliceOp; 7] = [SliceOp::Equilibrium, SliceOp::MapInPlace, SliceOp::ZipMapInPlace, SliceOp::Write, SliceOp::AddInPlace, SliceOp::AddInPlaceWithAmp, SliceOp::ZipMapMixed];
 
 #[derive(Clone, Debug, Serialize, Deserialize)]
 pub struct OpCase {
@@ -341,6 +343,8 @@ where
     let b_same: Vec<F> = (0..c.lb).map(|i| F::small(i + 13, c.salt)).collect();
     let b_signed: Vec<F::Signed> = (0..c.lb).map(|i| F::small_signed(i, c.salt)).collect();
     let amp = F::amp(c.salt);
+    // a mono control slice: positive keeps the frame, otherwise the frame is silenced
+    let b_mono: Vec<f32> = (0..c.lb).map(|i| if (i + c.salt as usize) % 3 == 0 { -1.0 } else { 0.5 }).collect();
     let two_slices = !matches!(c.op, SliceOp::Equilibrium | SliceOp::MapInPlace);
     let mismatch = two_slices && c.la != c.lb;
     st.nt(true);
@@ -366,6 +370,7 @@ where
         SliceOp::Write => ds::write(&mut a[..], &b_same[..]),
         SliceOp::AddInPlace => ds::add_in_place(&mut a[..], &b_signed[..]),
         SliceOp::AddInPlaceWithAmp => ds::add_in_place_with_amp_per_channel(&mut a[..], &b_signed[..], amp),
+        SliceOp::ZipMapMixed => ds::zip_map_in_place(&mut a[..], &b_mono[..], |x, y: f32| if y > 0.0 { x } else { F::EQUILIBRIUM }),
     });
     let what = format!("{:?} on {:?} with lengths ({}, {})", c.op, c.ty, c.la, c.lb);
     if mismatch {
@@ -392,6 +397,7 @@ where
             SliceOp::ZipMapInPlace | SliceOp::Write => b_same[i],
             SliceOp::AddInPlace => a0[i].add_amp(b_signed[i]),
             SliceOp::AddInPlaceWithAmp => a0[i].add_amp(b_signed[i].mul_amp(amp)),
+            SliceOp::ZipMapMixed => if b_mono[i] > 0.0 { a0[i] } else { F::EQUILIBRIUM },
         };
         ensure!(a[i] == exp, "{}: element {} is {:?}, element-wise frame operation gives {:?}", what, i, a[i], exp);
     }
@@ -446,7 +452,7 @@ pub fn run(ctx: &mut Ctx) {
     for &ty in &FRAME_TYS {
         for &op in &SLICE_OPS {
             for la in 0..=6 {
-                for lb in 0..=6 {
+                for lb in 0..=(if op == SliceOp::ZipMapMixed { 24 } else { 6 }) {
                     for salt in 0..3 {
                         cases.push(OpCase { ty, op, la, lb, salt });
                     }
@@ -455,7 +461,7 @@ pub fn run(ctx: &mut Ctx) {
         }
     }
     ctx.enumerate("ops/all-small-length-pairs", true, cases.into_iter(), check_op);
-    let strat = (0usize..8, 0usize..6, 0usize..300, 0usize..300, any::<u32>(), any::<bool>()).prop_map(|(t, o, la, lb, salt, same)| OpCase {
+    let strat = (0usize..8, 0usize..7, 0usize..300, 0usize..300, any::<u32>(), any::<bool>()).prop_map(|(t, o, la, lb, salt, same)| OpCase {
         ty: FRAME_TYS[t],
         op: SLICE_OPS[o],
         la,
